@@ -29,17 +29,18 @@ Proof. exact requests_answered. Qed.
 Print Assumptions C05_requests_answered.
 
 (* data while not SELECTED: one Reject (entity not selected) with its system bytes, nothing delivered, nothing changed *)
-Theorem C05_data_gate : forall s system wf,
+Theorem C05_data_gate : forall s system w wf,
   reachable s -> abs_state s <> Selected ->
-  snd (hs_step s (EvData system wf)) = [OutReject system REASON_NOT_SELECTED] /\ fst (hs_step s (EvData system wf)) = s.
+  snd (hs_step s (EvData system w wf)) = [OutReject system REASON_NOT_SELECTED] /\ fst (hs_step s (EvData system w wf)) = s.
 Proof. exact data_gate. Qed.
 Print Assumptions C05_data_gate.
 
-(* data while SELECTED: delivered, to the waiting requester if there is one, else to the application *)
-Theorem C05_data_delivered : forall s system,
+(* data while SELECTED: delivered — to the requester waiting for these system bytes if the message can be a reply (no W-bit),
+   else to the application; a primary of the peer (W-bit) always reaches the application, whatever its system bytes (D49) *)
+Theorem C05_data_delivered : forall s system w,
   reachable s -> abs_state s = Selected ->
-  snd (hs_step s (EvData system true)) = [if queued s system then OutResolve system else OutDeliver system] /\
-  abs_state (fst (hs_step s (EvData system true))) = Selected.
+  snd (hs_step s (EvData system w true)) = [if queued s system && negb w then OutResolve system else OutDeliver system] /\
+  abs_state (fst (hs_step s (EvData system w true))) = Selected.
 Proof. exact data_delivered. Qed.
 Print Assumptions C05_data_delivered.
 
@@ -54,10 +55,10 @@ Theorem C05_separate_refuted :
 Proof. exact separate_refuted. Qed.
 Print Assumptions C05_separate_refuted.
 
-(* non-vacuity: E37 prescribes every step of a 16-event history through all three states, and the theorem's premises hold *)
+(* non-vacuity: E37 prescribes every step of a 17-event history (with a primary of the peer that carries the system bytes of an open transaction) through all three states, and the theorem's premises hold *)
 Example C05_history_prescribed :
   Forall not_separate sample_history /\
-  (exists a' outs, e37_run sess0 sample_history = Some (a', outs) /\ st a' = NotSelected /\ length (concat outs) = 13%nat).
+  (exists a' outs, e37_run sess0 sample_history = Some (a', outs) /\ st a' = NotSelected /\ length (concat outs) = 14%nat).
 Proof. split; [repeat constructor; cbn; discriminate|]. eexists; eexists. split; [vm_compute; reflexivity|]. split; reflexivity. Qed.
 
 Example C05_reachable_selected : reachable (fst (hs_run hs0 [EvConnected; EvCtrl 1 8 0])) /\ abs_state (fst (hs_run hs0 [EvConnected; EvCtrl 1 8 0])) = Selected.
